@@ -116,7 +116,9 @@ def h_concrete_overrank(ctx):
                            ([4, 4, 4], [1, 2, 3, 1], 4, 3)]:
         for seed in range(6):
             T = teneva.rand(n, rho, seed=100 + seed)
-            I, idx, idm = teneva.sample_tt(n, r=m, seed=seed)
+            # integer seeds, generator objects (prefix sets of consecutive blocks are then independent draws), no seed
+            sd = seed if seed < 3 else (np.random.default_rng(seed) if seed < 5 else None)
+            I, idx, idm = teneva.sample_tt(n, r=m, seed=sd)
             y = teneva.get_many(T, I)
             try:
                 Z = teneva.svd_incomplete(I, y, idx, idm, e=1e-10, r=cap)
